@@ -11,6 +11,7 @@
 From Spowtd Require Import Model.FitOffsets Model.Views Proofs.QSum Proofs.FitOffsetsSpec Proofs.FindOffsetsSpec
   Proofs.ViewsSpec Proofs.PlantedViewSpec.
 From Spowtd Require Import Model.Components Proofs.ComponentsSpec Proofs.PlantedMainBodySpec.
+From Spowtd Require Import Model.Regrid Proofs.RegridSpec Proofs.PlantedRiseSpec.
 
 Theorem C06_planted_curve_recovered : forall hm sids offs (T : Z -> Q) (cs : nat -> Q),
   find_offsets hm = Ok (sids, offs) ->
@@ -114,7 +115,7 @@ Print Assumptions C06_solver_to_view_from_reference.
     remains; data planted on the whole head mapping suffice, whatever smaller
     components and single-interval levels it also contains. *)
 Theorem C06_main_body_to_view_from_reference :
-  forall (start_of : nat -> Z) (hm : head_mapping) sids offs levels grid step ref
+  forall (start_of : nat -> Z) (hm : FitOffsets.head_mapping) sids offs levels grid step ref
          (T : Z -> Q) (cs : nat -> Q),
   NoDup (map fst hm) ->
   offsets_from_mapping hm = Ok (sids, offs, levels) ->
@@ -132,6 +133,24 @@ Theorem C06_main_body_to_view_from_reference :
                 v == T h - T ref.
 Proof. exact planted_main_body_view. Qed.
 Print Assumptions C06_main_body_to_view_from_reference.
+
+(** Where the planted relation comes from on the rise side: with constant
+    specific yield sigma (per grid step) the series rise.py builds for a storm is
+    the chord (0, Y0) -> (sigma (Y1 - Y0), Y1); every crossing the regrid model
+    (C12) reports for it is sigma k - sigma Y0, i.e. the hypothesis of the
+    theorems above with T(k) = sigma k and c(interval) = sigma Y0. *)
+Theorem C06_rise_piece_is_planted : forall (sigma Y0 Y1 : Q) (k : Z) (v : Q),
+  In (k, v) (seg_out (0, Y0) (sigma * (Y1 - Y0), Y1)) ->
+  v == sigma * inject_Z k - sigma * Y0.
+Proof. exact rise_piece_is_planted. Qed.
+Print Assumptions C06_rise_piece_is_planted.
+
+Example C06_example_rise_piece :
+  seg_out (0, 3 # 2) ((1 # 4) * ((9 # 2) - (3 # 2)), 9 # 2)
+  = [(2%Z, cross 0 (3 # 2) ((1 # 4) * ((9 # 2) - (3 # 2))) (9 # 2) 2);
+     (3%Z, cross 0 (3 # 2) ((1 # 4) * ((9 # 2) - (3 # 2))) (9 # 2) 3);
+     (4%Z, cross 0 (3 # 2) ((1 # 4) * ((9 # 2) - (3 # 2))) (9 # 2) 4)].
+Proof. vm_compute. reflexivity. Qed.
 
 (** Non-vacuity: three pieces of T(h) = 10 - 2h with constants 0, 5, -3. *)
 Example C06_example :
